@@ -635,6 +635,9 @@ def alter_code(
         else:
             raise ValueError(f"Invalid action: {action}")
 
+    if source == original_source:
+        return source  # Nothing was altered, so there is no spelling to put back either
+
     source = _substitute_original_strings(original_source, source)
     source = _substitute_original_fstrings(original_source, source)
 
@@ -779,6 +782,9 @@ def _apply_rewrites(source: str, rewrites: Sequence[Tuple[Any, Callable]]) -> st
     original_source = new_source = source
     for transaction, (_, rewrite) in rewrites:
         new_source = _do_rewrite(new_source, rewrite, fix_function_name=transaction.group_name)
+
+    if new_source == source:
+        return source  # Nothing was rewritten, so there is no spelling to put back either
 
     if not core.is_valid_python(new_source):
         return source
